@@ -255,7 +255,7 @@ def judgeAccepted (env : Env) (s : State) (c : Call) (r : Response) (s' : State)
        | _, _ => false)
     | _ => true
   let v := if sane s then v.check "C11" (if exactStep then "sane" else "sane_inexact") (sane s') else v
-  let v := v.check "C08" "C08_readyTracks" (C08_readyTracks s')
+  let v := if sane s then v.check "C08" "C08_readyTracks" (C08_readyTracks s') else v
   -- an order with nothing left must have left the book (else queries keep reporting it)
   let v := v.check "C16" "C16_closedInvisible"
     ((s'.asks.all fun kv => decide (kv.2.size > 0)) &&
